@@ -2245,10 +2245,15 @@ class ParameterModelMapper(
                     src_gp_mask[gfxp_mask]]
             ))
 
-            # Create the array of the global parameter indices.
+            # Create the array of the global parameter indices. For floating
+            # parameters it is the index of the global floating parameter,
+            # i.e. the index within the array of global floating parameter
+            # values and gradients, which is what all consumers of the
+            # ``<name>:gpidx`` fields use to identify a fit parameter.
             gpidxs = np.arange(len(_global_paramset))
+            gflp_idxs = np.cumsum(gflp_mask) - 1
             model_gp_idxs = np.concatenate((
-                gpidxs[gflp_mask & src_gp_mask] + 1,
+                gflp_idxs[gflp_mask & src_gp_mask] + 1,
                 -gpidxs[gfxp_mask & src_gp_mask] - 1,
             ))
 
